@@ -358,9 +358,13 @@ def itemsBytes (ls : List Nat) : Bytes :=
 /-- driver-side span cache: every span "just exhausted" (read = size), so that the first Make of a
     class takes the slow path and allocates its buffer only when needed.  The real cache is a process
     global in an unknown state and nothing printed depends on that state or on the span size (the
-    theorems hold for every size); the driver uses 128 KiB spans (larger than every span-class object)
-    because a 1 MiB `List UInt8` per class and line is too slow. -/
-def spanInit : SpanCache := ⟨List.replicate spanCacheSize ⟨Slice.nil, 131072, 131072⟩⟩
+    theorems hold for every size); the driver uses min(Facts.spanCacheBytes, 128 KiB) — the source's value
+    whenever it is at most 128 KiB, else 128 KiB (larger than every span-class object), because a 1 MiB
+    `List UInt8` per class and line is too slow.  `cap − len` of a span result (`c0`) is printed in the
+    model column only: a difference there is a model/implementation difference, not a C16 violation
+    (the property asks for non-aliasing, which the `dj`/OVERLAP relation and the value checks decide). -/
+def drvSpanSize : Nat := min Facts.spanCacheBytes 131072
+def spanInit : SpanCache := ⟨List.replicate spanCacheSize ⟨Slice.nil, drvSpanSize, drvSpanSize⟩⟩
 
 structure DecSt where
   h : Heap
@@ -488,8 +492,6 @@ def c16Verdict (span : Nat) (impl : String) : String :=
   if hasSub impl "VAL" then "bad:C16:value-changed"
   else if hasSub impl "INPUT" then "bad:C16:input-changed"
   else if hasSub impl "OVERLAP" then "bad:C16:aliasing"
-  else if hasSub impl " c" ∧ ((impl.splitOn " ").any (fun t => t.startsWith "c" ∧ t.length > 1 ∧ (t.drop 1).toString.front.isDigit ∧ t != "c0" ∧ !hasSub t "=")) then
-    "bad:C16:span-cap"
   else if span = 2 then
     match impl.splitOn " || " with
     | [a, b] => if decValues a == decValues b then "ok" else "bad:C16:flag-dependent"
